@@ -511,6 +511,99 @@ func runC04(c *Ctx) {
 	}
 
 	// ---------- L2 generic error bodies ----------
+	c.rule("C04-R13", "TNT: an error that can come from evaluating program code (Interpreter.EvaluateExpression, executeStatements, and every function of pkg/interpreter whose returned error can derive from theirs: ApplyTypeDefaults for a default expression, a query-default helper) is a fault of the program, not of the caller: in pkg/interpreter no Response literal with a 4xx StatusCode carries text derived from such an error (4xx with the error text is reserved for what the request got wrong - its query string, its body)")
+	{
+		sp := c.spkg(interpPkg)
+		evalErr := map[*ssa.Function]bool{}
+		if sp != nil {
+			for _, nm := range []string{"Interpreter.EvaluateExpression", "Interpreter.executeStatements", "Interpreter.ExecuteStatement"} {
+				if f := c.fn(interpPkg, nm); f != nil {
+					evalErr[f] = true
+				}
+			}
+			fns := c.srcFuncs(interpPkg)
+			fromEval := func(v ssa.Value) bool {
+				return derivesFrom(v, func(x ssa.Value) bool {
+					ex, ok := x.(*ssa.Extract)
+					if !ok {
+						return false
+					}
+					cl, ok := ex.Tuple.(*ssa.Call)
+					if !ok {
+						return false
+					}
+					sf := staticFn(cl)
+					return sf != nil && evalErr[sf] && isErrorType(ex.Type())
+				})
+			}
+			for changed := true; changed; {
+				changed = false
+				for _, f := range fns {
+					if evalErr[f] || f.Signature.Results().Len() == 0 || !isErrorType(f.Signature.Results().At(f.Signature.Results().Len()-1).Type()) {
+						continue
+					}
+					// validators and converters judge the request, whatever they call
+					if nm := f.Name(); strings.Contains(nm, "CheckType") || strings.Contains(nm, "Validate") || strings.Contains(nm, "convert") || strings.Contains(nm, "Query") && !strings.Contains(nm, "resolve") {
+						continue
+					}
+					eachInstr(f, func(_ *ssa.BasicBlock, _ int, ins ssa.Instruction) {
+						r, ok := ins.(*ssa.Return)
+						if !ok || len(r.Results) == 0 {
+							return
+						}
+						rv := retVals(r)
+						if fromEval(rv[len(rv)-1]) && !evalErr[f] {
+							evalErr[f] = true
+							changed = true
+						}
+					})
+				}
+			}
+			n := 0
+			for _, f := range fns {
+				k := 0
+				eachInstr(f, func(_ *ssa.BasicBlock, _ int, ins ssa.Instruction) {
+					al, ok := ins.(*ssa.Alloc)
+					if !ok || !typeIs(derefType(al.Type()), interpPath, "Response") {
+						return
+					}
+					var status int64 = -1
+					var body ssa.Value
+					for _, r := range refs(al) {
+						fa, ok := r.(*ssa.FieldAddr)
+						if !ok {
+							continue
+						}
+						_, fld, _ := fieldOf(fa)
+						for _, rr := range refs(fa) {
+							st, ok := rr.(*ssa.Store)
+							if !ok || st.Addr != ssa.Value(fa) {
+								continue
+							}
+							if fld == "StatusCode" {
+								if kv, ok := constInt(st.Val); ok {
+									status = kv
+								}
+							}
+							if fld == "Body" {
+								body = st.Val
+							}
+						}
+					}
+					if status < 400 || status >= 500 || body == nil {
+						return
+					}
+					n++
+					k++
+					c.ob("C04-R13", fnKey(f)+"#4xx-body-carries-no-evaluation-error-"+itoa(k), al.Pos(), !fromEval(body), "a 4xx response is built from an error that can come from evaluating program code (a default expression that faults): the client is told it made a mistake and is shown interpreter error text, where a fault of the program must be a 5xx with a generic body")
+				})
+			}
+			c.Sites["C04-R13#4xx-responses"] = n
+			c.Sites["C04-R13#functions-returning-evaluation-errors"] = len(evalErr)
+			c.floor("C04-R13", 3)
+		}
+	}
+
 	c.rule("C04-R10", "TNT: no text derived from a Go error value, recover() or debug.Stack() is written into a response whose status is not a constant 4xx: (a) every interpreter.Response literal with StatusCode >= 500 has a constant body; (b) in cmd/glyph/handlers.go and pkg/server/{handler,middleware}.go every write to the ResponseWriter (Encoder.Encode / Write / http.Error / fmt.Fprint*) of error-derived data is preceded on every path by WriteHeader(const 4xx); (c) passing error-derived text to a helper that writes it is allowed only for helpers whose every WriteHeader is a constant 4xx; (d) writeInternalError calls WriteHeader(500) before writing the body")
 	isErrSrc := func(v ssa.Value) bool {
 		switch x := v.(type) {
